@@ -1,10 +1,101 @@
-//! C10 — not built yet.
+//! C10 Trust anchors are bound to their TAL key (rsync transport leg).
+
+use proptest::prelude::*;
 
 use crate::core::*;
+use crate::erpki::*;
+use crate::erun::*;
+use crate::escen::*;
 
-pub const IMPLEMENTED: bool = false;
+fn scenario(words: &[u16]) -> Scenario {
+    let mut hp = HistProfile::default();
+    hp.base.fault_16 = 0;
+    hp.base.obj_faults = false;
+    hp.base.pp_faults = false;
+    hp.base.cert_faults = false;
+    hp.base.max_cas = 4;
+    hp.base.max_tals = 2;
+    hp.base.versions = 2;
+    hp.base.modules = 3;
+    hp.incomplete_16 = 0;
+    hp.rollback_16 = 1;
+    hp.fail_module_16 = 3;
+    hp.offline_16 = 2;
+    hp.max_steps = 4;
+    let mut sc = history_run(words, &hp);
+    let mut d = D::new(words);
+    for _ in 0..17 {
+        d.next();
+    }
+    let roots: Vec<usize> = sc.cas.iter().enumerate().filter(|(_, c)| c.parent.is_none()).map(|(i, _)| i).collect();
+    for r in &roots {
+        let extra = d.below(3);
+        sc.cas[*r].ta_alt = (0..extra).map(|_| d.below(3)).collect();
+    }
+    for (n, step) in sc.steps.iter_mut().enumerate() {
+        for r in &roots {
+            for u in 0..(1 + sc.cas[*r].ta_alt.len()) {
+                // the very first URI in the first run is mostly good so that something gets stored
+                let st = if n == 0 && u == 0 { d.pick(&[0u8, 0, 0, 1, 2, 4]) } else { d.pick(&[0u8, 0, 1, 2, 3, 4, 4, 2]) };
+                if st != 0 {
+                    step.ta_serve.push((*r, u, st));
+                }
+            }
+            if n > 0 && d.chance(2, 16) {
+                step.foreign_tal_key.push(*r);
+            }
+        }
+    }
+    sc
+}
 
-pub fn run(_ctx: &Ctx, _rep: &mut Report, _replay: Option<&serde_json::Value>) {
-    eprintln!("C10: check not implemented");
-    std::process::exit(2);
+fn prop(sc: &Scenario, info: &mut CaseInfo) -> Verdict {
+    let j = Judge { id: "C10", sound: true, complete: true, points: true, ..Default::default() };
+    // extra oracle: the stored trust anchor files must decode (never replaced by undecodable bytes)
+    let v = judge(&j, sc, info, |world, obs| {
+        let dir = world.cache().join("stored/ta");
+        let mut bad = None;
+        fn walk(p: &std::path::Path, bad: &mut Option<String>) {
+            if let Ok(rd) = std::fs::read_dir(p) {
+                for e in rd.flatten() {
+                    let p = e.path();
+                    if p.is_dir() {
+                        walk(&p, bad);
+                    } else if let Ok(data) = std::fs::read(&p) {
+                        if rpki::repository::cert::Cert::decode(bytes::Bytes::from(data)).is_err() {
+                            *bad = Some(p.display().to_string());
+                        }
+                    }
+                }
+            }
+        }
+        walk(&dir, &mut bad);
+        bad.map(|p| Verdict::fail("C10/stored-ta-undecodable", format!("step {}: stored trust anchor file {} does not decode", obs.n, p)))
+    });
+    let failing_download_with_store = sc.steps.iter().skip(1).any(|s| !s.ta_serve.is_empty() || !s.fail_modules.is_empty() || !s.foreign_tal_key.is_empty());
+    info.nontrivial = failing_download_with_store;
+    for s in &sc.steps {
+        for (_, u, st) in &s.ta_serve {
+            info.class(format!("uri{}_state{}", u.min(&2), st));
+        }
+        if !s.foreign_tal_key.is_empty() {
+            info.class("tal_rekeyed");
+        }
+    }
+    for c in history_classes(sc) {
+        info.class(c);
+    }
+    v
+}
+
+pub fn run(ctx: &Ctx, rep: &mut Report, replay: Option<&serde_json::Value>) {
+    rep.rule("E-rpki histories of 2-4 runs, 1-2 TALs with 1-3 rsync URIs each (in up to 3 modules); per URI and run the server offers the matching certificate / a certificate with another key / undecodable bytes / an expired certificate with the right key / nothing; modules fail, runs go offline, TAL files are re-keyed between runs; oracle: reference model of TA selection (URIs in order; a decodable download replaces the stored copy of that URI, otherwise the stored copy is used; first certificate matching the TAL key that validates is used, else the TAL contributes nothing) judged through payload equality and accepted/rejected point counts, plus: every stored trust anchor file decodes; non-trivial = a later run with a non-matching/failed download, unreachable module or re-keyed TAL (stored copy in play); distinct by serialised scenario");
+    rep.assume("https trust anchor URIs are exercised by the RRDP/HTTPS legs (C38 and the transport checks), this check uses rsync URIs only");
+    ctx.shrink_iters.store(120, std::sync::atomic::Ordering::Relaxed);
+    if let Some(v) = replay {
+        let t: Tagged<Scenario> = serde_json::from_value(v.clone()).expect("replay");
+        run_case(ctx, rep, &t.sub, &t.case, prop);
+        return;
+    }
+    run_prop_par(ctx, rep, "history", ctx.tier.pick(240, 6000), 8, || genome(260).prop_map(|w| scenario(&w)), prop);
 }
